@@ -12,3 +12,4 @@ pub mod bgp;
 pub mod mrt;
 pub mod frim;
 pub mod bmp_http;
+pub mod targets;
